@@ -224,8 +224,8 @@ impl Alphabet {
         v.dedup();
         v
     }
-    pub fn to_cells(&self, w: &[u32]) -> Vec<u8> {
-        w.iter().map(|&x| self.cell_of(x) as u8).collect()
+    pub fn to_cells(&self, w: &[u32]) -> Vec<crate::dfa::Cell> {
+        w.iter().map(|&x| self.cell_of(x) as crate::dfa::Cell).collect()
     }
 }
 
